@@ -29,6 +29,9 @@ def main(path):
         use_pyhf_src()
         import pyhf
         import prob_replay
+        if det.get("first"):      # the obligation was discharged after a first segment on another precision in the same process
+            pyhf.set_backend(det["first"][0], precision=det["first"][1])
+            prob_replay.warm_up(pyhf)
         pyhf.set_backend(det["backend"], precision=det["prec"])
         line = json.dumps({"backend": det["backend"], "prec": det["prec"], "obligation": det["obligation"]})
         out = prob_replay.replay(pyhf, det["backend"], det["prec"], [line])
